@@ -136,7 +136,7 @@ BuiltinHeap == [i \in 1 .. Len(BuiltinClasses) |->
                   Obj("class", BuiltinClasses[i], <<>>, 0, 0,
                       IF i = 1 THEN 0 ELSE IF i = 2 THEN 1 ELSE 2,
                       IF i = 1 THEN <<>> ELSE ErrFields, <<>>, <<>>)]
-Natives == <<"print">>
+Natives == <<"print", "exit">>
 \* root environment: builtin classes and native functions
 RootNames == BuiltinClasses \o Natives
 RootVals == [i \in 1 .. Len(RootNames) |->
@@ -155,6 +155,7 @@ Init ==
           k |-> <<>>,
           out |-> <<>>,
           st |-> "run",
+          tb |-> <<>>,        \* activations at the latest raise, innermost first: [n |-> node where it stands, f |-> function name]
           steps |-> 0]
 
 \* ---------------------------------------------------------------------------
@@ -193,11 +194,33 @@ LastObj(m) == Len(m.heap)
 
 \* text helpers (ASCII)
 
+\* The active calls, innermost first.  Every "call" frame of the continuation is one activation boundary: the
+\* callee stands at `site` (or at the call it made), its caller stands at the call node.
+RECURSIVE ActsFrom(_, _, _)
+ActsFrom(m, i, site) ==
+  \* i scans the continuation from the top; site is where the activation currently being described stands
+  IF i = 0 THEN <<[n |-> site, f |-> "script"]>>
+  ELSE IF m.k[i].f = "call"
+       THEN <<[n |-> site, f |-> m.heap[m.k[i].i].name]>> \o ActsFrom(m, i - 1, m.k[i].n)
+       ELSE ActsFrom(m, i - 1, site)
+Acts(m, site) == ActsFrom(m, Len(m.k), site)
+
+RECURSIVE CallsBelow(_, _)
+CallsBelow(m, i) == IF i = 0 THEN 0 ELSE (IF m.k[i].f = "call" THEN 1 ELSE 0) + CallsBelow(m, i - 1)
+
+\* a back trace entry as text "@<node>:<function>"; the driver turns it into "path:line in function()"
+\* function names are TLA+ strings; the programs carry their code points in P.names (name -> cp)
+FnameCp(name) == IF name \in DOMAIN P.names THEN P.names[name] ELSE <<63>>
+
 \* raise a runtime error of a builtin class; `site` is the node being evaluated
 ErrInst(m, cls, site) ==
   Alloc(m, Obj("inst", "", <<S(<<0>>), Nil, Nil>>, site, 0, ClassId(cls), <<>>, <<>>, <<>>))   \* message: any text (code point 0 = wildcard)
 Throw(m, cls, site) ==
-  LET m1 == ErrInst(m, cls, site) IN [m1 EXCEPT !.ctl = Ctl("thr", site, R(LastObj(m1), "inst"))]
+  LET m1 == ErrInst(m, cls, site) IN [m1 EXCEPT !.ctl = Ctl("thr", site, R(LastObj(m1), "inst")), !.tb = Acts(m, site)]
+
+\* an error raised inside a native that runs with its own call frame (index get/set): that frame is listed too
+ThrowN(m, cls, site, nat) ==
+  LET m1 == Throw(m, cls, site) IN [m1 EXCEPT !.tb = <<[n |-> 0, f |-> nat]>> \o @]
 
 RECURSIVE IsSubclass(_, _, _)
 IsSubclass(m, c, anc) == IF c = 0 THEN FALSE ELSE IF c = anc THEN TRUE ELSE IsSubclass(m, m.heap[c].cls, anc)
@@ -280,6 +303,9 @@ Call(m, callee, args, site) ==
          ELSE Val([m EXCEPT !.out = Append(@, JoinSp(m, args, 1))], Nil)
     [] callee.t = "native" /\ callee.x = "str" ->
          IF Len(args) # 1 THEN Throw(m, "RuntimeError", site) ELSE Val(m, S(Show(m, args[1])))
+    [] callee.t = "native" /\ callee.x = "exit" ->
+         IF Len(args) > 1 \/ (Len(args) = 1 /\ ~IsInt(args[1])) THEN Throw(m, "RuntimeError", site)
+         ELSE [m EXCEPT !.st = "exit:" \o ToString(IF Len(args) = 0 THEN 0 ELSE args[1].n), !.ctl = Ctl("halt", 0, Nil)]
     [] callee.t = "ref" /\ callee.x = "closure" -> Enter(m, callee.n, Nil, args, site)
     [] callee.t = "ref" /\ callee.x = "bound" ->
          LET b == m.heap[callee.n] IN
@@ -481,7 +507,7 @@ ValueAt(m, v) ==
     [] f = "return1" -> [m0 EXCEPT !.ctl = Ctl("ret", n, v)]
     [] f = "raise" ->
          IF v.t = "ref" /\ v.x = "inst" /\ IsSubclass(m0, m0.heap[v.n].cls, ClassId("Error"))
-         THEN [[m0 EXCEPT !.heap[v.n].fn = n] EXCEPT !.ctl = Ctl("thr", n, v)]
+         THEN [[m0 EXCEPT !.heap[v.n].fn = n] EXCEPT !.ctl = Ctl("thr", n, v), !.tb = Acts(m0, n)]
          ELSE Throw(m0, "RuntimeError", n)
     [] f \in {"list", "tuple"} ->
          LET vs == IF fr.i = 0 THEN <<>> ELSE Append(fr.vs, v) IN
@@ -526,7 +552,7 @@ ValueAt(m, v) ==
                   LET xs == m0.heap[o.n].xs len == Len(xs) IN
                     IF ~IsInt(v) THEN Throw(m0, "RuntimeError", n)
                     ELSE LET ix == IF v.n < 0 THEN len + v.n ELSE v.n IN
-                           IF ix < 0 \/ ix >= len THEN Throw(m0, "IndexError", n) ELSE Val(m0, xs[ix + 1])
+                           IF ix < 0 \/ ix >= len THEN ThrowN(m0, "IndexError", n, "[]") ELSE Val(m0, xs[ix + 1])
                 ELSE Throw(m0, "RuntimeError", n)
     [] f = "indexset" ->
          IF fr.i < 3 THEN Ev(PushK(m0, [fr EXCEPT !.i = @ + 1, !.vs = Append(@, v)]), Kid(n, fr.i + 1))
@@ -535,7 +561,7 @@ ValueAt(m, v) ==
                   LET len == Len(m0.heap[o.n].xs) IN
                     IF ~IsInt(ixv) THEN Throw(m0, "RuntimeError", n)
                     ELSE LET ix == IF ixv.n < 0 THEN len + ixv.n ELSE ixv.n IN
-                           IF ix < 0 \/ ix >= len THEN Throw(m0, "IndexError", n)
+                           IF ix < 0 \/ ix >= len THEN ThrowN(m0, "IndexError", n, "[]=")
                            ELSE Val([m0 EXCEPT !.heap[o.n].xs[ix + 1] = v], v)
                 ELSE Throw(m0, "RuntimeError", n)
     [] f = "interp" ->
@@ -622,7 +648,14 @@ Select(m) ==
        IN IF cname # "" /\ loc = 0 THEN Throw(m0, "RuntimeError", c)
           ELSE IF ~(cv.t = "ref" /\ cv.x = "class" /\ IsSubclass(m0, cv.n, ClassId("Error"))) THEN Throw(m0, "TypeError", c)
           ELSE IF IsSubclass(m0, m0.heap[err.n].cls, cv.n) THEN
-                 LET m1 == NewEnv(m0, fr.e)
+                 \* the error's backTrace: the calls between the raise and the catching frame, innermost first
+                 LET depthHere == CallsBelow(m0, Len(m0.k)) + 1
+                     cnt == Len(m0.tb) - depthHere + 1
+                     entries == [i \in 1 .. (IF cnt < 0 THEN 0 ELSE cnt) |->
+                                   S(<<64>> \o NatCp(m0.tb[i].n) \o <<58>> \o FnameCp(m0.tb[i].f))]
+                     mb == Alloc(m0, Obj("tuple", "", entries, 0, 0, 0, <<>>, <<>>, <<>>))
+                     mbt == [mb EXCEPT !.heap[err.n].xs[2] = R(LastObj(mb), "tuple")]
+                     m1 == NewEnv(mbt, fr.e)
                      e == LastEnv(m1)
                      m2 == Declare(m1, e, Node(c).s, err)
                  IN [Ex(PushK(m2, Frame("catch", c, 0, <<>>, fr.e)), Kid(c, 1)) EXCEPT !.env = e]
@@ -662,6 +695,5 @@ Inv == EnvOK
 Result ==
   M.ctl.m = "halt" =>
     PrintT("CASE " \o ToJson([id |-> P.id, out |-> M.out, st |-> M.st, steps |-> M.steps,
-                              err |-> IF M.ctl.v.t = "ref" THEN
-                                        [site |-> M.heap[M.ctl.v.n].fn] ELSE [site |-> 0]]))
+                              tb |-> IF M.ctl.v.t = "ref" THEN M.tb ELSE <<>>]))
 =============================================================================
